@@ -52,7 +52,8 @@ pub fn check_inverse(
             match &first {
                 None => first = Some(g),
                 Some(f0) => {
-                    if *f0 != g {
+                    // identity = where the definition lives (never the crate's own `==`)
+                    if f0.as_ref().map(|x| def_key(x, root)) != g.as_ref().map(|x| def_key(x, root)) {
                         rep.violation(
                             "goto-depends-on-column-inside-token",
                             &format!("go-to-definition on `{}` in {} line {} differs between columns", name, rel(p, root), line),
@@ -89,7 +90,7 @@ pub fn check_inverse(
         }
         for (i, (p, name, line, s, _e)) in usages.iter().enumerate() {
             let in_refs = seen.contains_key(&(p.clone(), *line, *s)) && *name == d.name;
-            let resolves = goto[i].as_ref() == Some(d);
+            let resolves = goto[i].as_ref().map(|g| def_key(g, root)) == Some(def_key(d, root));
             if in_refs {
                 listed[i] += 1;
             }
